@@ -26,6 +26,8 @@ pub struct CtxFang;
 impl FangAction for CtxFang {
     async fn fore<'a>(&'a self, req: &'a mut Request) -> Result<(), Response> {
         if let Some(v) = req.headers.get("X-Set-Ctx") { let v = v.to_string(); req.context.set(Marker(v)); }
+        // proxy-style: on demand, remove the hop-by-hop header from the request before the handler sees it
+        if req.headers.get("X-Strip-Hop-By-Hop").is_some() { req.headers.set().Connection(None); }
         Ok(())
     }
 }
